@@ -82,6 +82,26 @@ def check_payload(g, node):
         if not headers:
             continue
         h = headers[0]
+        # an inner loop that consumes the value somewhere in its body counts as consuming it: whether that loop
+        # runs at least once (and takes the consuming arm) is a fact about runtime values, not about structure
+        uses = set(uses)
+        pred = b.pred()
+        for x in scc:
+            for y in succ[x]:
+                if y == h or y not in scc or not b.dominates(y, x):
+                    continue
+                body = {y, x}
+                st2 = [x]
+                while st2:
+                    z = st2.pop()
+                    if z == y:
+                        continue
+                    for w in pred[z]:
+                        if w not in body and w in scc:
+                            body.add(w)
+                            st2.append(w)
+                if body & uses and d not in body:
+                    uses.add(y)
         # walk inside the loop from the definition without entering a consuming block
         seen = set()
         st = [d] if d not in uses else []
@@ -100,13 +120,15 @@ def check_payload(g, node):
     return True, True, "consumed on every path to the next iteration", None
 
 
-def run_values(rep, ctx, anchor, rule="R1d"):
+def run_values(rep, ctx, anchor, rule="R1d", role="values", what="claimed value", starts=None):
     g = ctx.graph(anchor)
-    idx = anchor.roles.get("values")
-    if idx is None:
-        return 0
     from .. import tables as T
-    pl = payload_nodes(g, [(anchor.body.id, idx)], T.SCALARS)
+    if starts is None:
+        idx = anchor.roles.get(role)
+        if idx is None:
+            return 0
+        starts = [(anchor.body.id, idx)]
+    pl = payload_nodes(g, starts, T.SCALARS)
     n = 0
     for node in sorted(pl, key=str):
         app, ok, detail, where = check_payload(g, node)
@@ -115,8 +137,8 @@ def run_values(rep, ctx, anchor, rule="R1d"):
         n += 1
         b = ctx.facts.bodies[node[0]]
         nm = b.locals[node[1]].get("name") or "_%d" % node[1]
-        rep.add(rule, "%s:values:%s@%s" % (anchor.key, nm, short(node[0])), ok,
-                "claimed value `%s` in %s: %s" % (nm, short(node[0]), detail), where or b.span)
+        rep.add(rule, "%s:%s:%s@%s" % (anchor.key, role, nm, short(node[0])), ok,
+                "%s `%s` in %s: %s" % (what, nm, short(node[0]), detail), where or b.span)
     return n
 
 
